@@ -155,6 +155,10 @@ def twin_c13(seed, n_pre, n_post):
                P(0xBEEF, 0x0000 | (7 << 5) | 0x18, 0x3C3D, 0x4142), P(0xBEEF, 0x1000, 0x00E3, 0),
                P(0x1111, 0x2000 | (last_flag << 4), 0x6162, 0x6364, 0, 0, 1, 1), P(0xBEEF, 0x0000 | (7 << 5), 0x3C3D, 0x6162, 0, 0, 0, 1)]
     r.shuffle(probes)
+    # … and the very groups received last before the reset, verbatim (a "same as the previous group" shortcut that survives
+    # the reset shows only on these)
+    lastp = [l for l in pre if l.startswith("p ")][-4:]
+    probes = lastp[-r.randrange(1, 4):] + probes if lastp and r.random() < 0.7 else probes
     post = list(probes)
     g2 = Gen(seed + 7777, "c13post")
     while len(post) < n_post:
